@@ -152,7 +152,7 @@ StatusClass(st) == IF st \in DOMAIN Typed THEN Typed[st] ELSE "UnexpectedStatusC
 (* ======================================================================== *)
 (* 2. Model                                                                 *)
 (* ======================================================================== *)
-VARIABLES c,      \* the call: [ep, id, ver, ids, bbox, q, opts, base, lim, via]   (never changes)
+VARIABLES c,      \* the call: [ep, id, ver, ids, bbox, q, ctx, opts, base, lim, via]   (never changes)
           pc,     \* "wait" | "get" | "resp" | "ret" | "done"
           pend,   \* outcome the call is about to return
           log     \* observable events so far
@@ -168,7 +168,7 @@ GetEv(cc)   == [e |-> "get", method |-> "GET", host |-> ExpectedHost(cc), path |
 RespEv(st, body) == [e |-> "resp", status |-> st, body |-> body]
 RetEv(p)    == [e |-> "ret", cls |-> p.cls, code |-> p.code, notfound |-> p.notfound, els |-> p.els]
 
-\* a body is [kind |-> "xml" | "garbage" | "empty" | "trunc", root, els]
+\* a body is [kind |-> "xml" | "garbage" | "empty" | "trunc", root, els, pad, flush]
 Outcome(cc, st, body) ==
   IF st # 200 THEN Fail(StatusClass(st), IF st \in DOMAIN Typed THEN 0 ELSE st)
   ELSE IF body.kind # "xml" THEN Fail("other", 0)
@@ -293,6 +293,9 @@ BaseSet == IF Wide THEN DOMAIN Bases ELSE {"", "http://api.example/api/0.6", "ht
 \* via: "ds" = method on a Datasource with its own client, "dsnil" = Datasource without a client (falls back to the
 \* default client), "pkg" = package-level function (delegates to DefaultDatasource)
 Vias == {"ds", "dsnil", "pkg"}
+\* ctx: the context the caller passes: "bg" = no deadline (context.Background), "deadline" = the caller set one
+\* (far away; it never expires in the explored space).  The documented behaviour does not depend on it.
+Ctxs == {"bg", "deadline"}
 Lims == {"none", "set"}
 
 Args(ep) ==
@@ -303,17 +306,23 @@ Args(ep) ==
     [] EP[ep].arg = "bbox"  -> {[z EXCEPT !.bbox = b] : b \in BBoxes}
     [] EP[ep].arg = "q"     -> {[z EXCEPT !.q = s] : s \in Queries}
 
-Call(ep, a, o, b, l, v) == [ep |-> ep, id |-> a.id, ver |-> a.ver, ids |-> a.ids, bbox |-> a.bbox, q |-> a.q,
+Call(ep, a, o, b, l, v, x) == [ep |-> ep, id |-> a.id, ver |-> a.ver, ids |-> a.ids, bbox |-> a.bbox, q |-> a.q, ctx |-> x,
                             opts |-> o, base |-> b, lim |-> l, via |-> v]
-CallsVia(V) == UNION {{Call(ep, a, o, b, l, v) : a \in Args(ep), o \in OptSeqs(ep), b \in BaseSet, l \in Lims, v \in V} : ep \in EndpointNames}
-Calls == CallsVia(Vias)
+CallsVia(V, X) == UNION {{Call(ep, a, o, b, l, v, x) : a \in Args(ep), o \in OptSeqs(ep), b \in BaseSet, l \in Lims, v \in V, x \in X} : ep \in EndpointNames}
+Calls == CallsVia(Vias, Ctxs)
 
 \* environment: statuses and response documents
 Statuses == {200, 404, 403, 410, 414, 500, 301, 204, 400, 401, 429, 503} \cup (IF Wide THEN {201, 302, 304, 405, 409, 412, 418, 502, 509} ELSE {})
 Shapes   == <<"one", "none", "two", "mixedone", "mixedtwo", "three", "garbage", "empty", "trunc">>
 Others(k) == SelectSeq(<< El("node", "201", ""), El("way", "301", ""), El("relation", "401", ""),
                           El("changeset", "501", ""), El("note", "601", ""), El("user", "701", "") >>, LAMBDA x : x.t # k)
-Body(ep, shape) ==
+\* How the server delivers the document: pad = kilobytes of XML comments in front of the elements (a response of
+\* realistic size; the abstract element list stays small), flush = written in two pieces with a pause in between
+\* (a server that streams).  Neither changes what the document contains.
+Deliv(pad, flush) == [pad |-> pad, flush |-> flush]
+Plain      == Deliv(0, FALSE)
+Deliveries == {Plain, Deliv(256, FALSE), Deliv(0, TRUE), Deliv(256, TRUE)}
+BodyBase(ep, shape) ==
   LET k == EP[ep].own  root == EP[ep].root IN
   IF root = "osm" THEN
      CASE shape = "none"     -> [kind |-> "xml", root |-> root, els |-> << >>]
@@ -336,7 +345,7 @@ Body(ep, shape) ==
        [] shape = "garbage"  -> [kind |-> "garbage", root |-> root, els |-> << >>]
        [] shape = "empty"    -> [kind |-> "empty", root |-> root, els |-> << >>]
        [] shape = "trunc"    -> [kind |-> "trunc", root |-> root, els |-> << El("node", "101", "create") >>]
-Bodies(ep) == {Body(ep, Shapes[i]) : i \in DOMAIN Shapes}
+Body(ep, shape, d) == d @@ BodyBase(ep, shape)
 
 (* ------------------------------ the machine ----------------------------- *)
 \* The Model does not look at `via` (how the caller reaches the Datasource), so the design-level run fixes it.
@@ -346,19 +355,24 @@ Bodies(ep) == {Body(ep, Shapes[i]) : i \in DOMAIN Shapes}
 Star(x)    == \/ (x.base = "" /\ x.lim = "none")
               \/ (x.opts = << >> /\ x.lim = "none")
               \/ (x.opts = << >> /\ x.base = "")
-MCCalls    == IF Wide THEN {x \in CallsVia({"ds"}) : Star(x) \/ x.base \in {"", "http://h2.example:8080/osm/api/0.6"}}
-                      ELSE {x \in CallsVia({"ds"}) : Star(x)}
+MCCalls    == IF Wide THEN {x \in CallsVia({"ds"}, {"bg"}) : Star(x) \/ x.base \in {"", "http://h2.example:8080/osm/api/0.6"}}
+                      ELSE {x \in CallsVia({"ds"}, {"bg"}) : Star(x)}
 \* Environment of the design-level run.  The Model looks at the document only when the status is 200, so other
 \* statuses are paired with two documents (with and without elements) instead of all of them.
 AllShapes == {Shapes[i] : i \in DOMAIN Shapes}
-MCEnv == IF Wide THEN {<<200, sh>> : sh \in AllShapes} \cup {<<st, sh>> : st \in Statuses \ {200}, sh \in {"none", "mixedtwo"}}
-                 ELSE {<<200, sh>> : sh \in {"one", "none", "two", "mixedone", "garbage"}}
-                      \cup {<<st, "one">> : st \in {404, 403, 410, 414, 500, 204}}
+\* Likewise it never looks at how the document is delivered: the non-plain deliveries are paired with three documents.
+MCEnv == IF Wide THEN {<<200, sh, Plain>> : sh \in AllShapes}
+                      \cup {<<200, sh, d>> : sh \in {"one", "three", "trunc"}, d \in Deliveries \ {Plain}}
+                      \cup {<<st, sh, Plain>> : st \in Statuses \ {200}, sh \in {"none", "mixedtwo"}}
+                      \cup {<<404, "one", Deliv(256, TRUE)>>}
+                 ELSE {<<200, sh, Plain>> : sh \in {"one", "none", "two", "mixedone", "garbage"}}
+                      \cup {<<200, "one", Deliv(256, FALSE)>>, <<200, "two", Deliv(0, TRUE)>>}
+                      \cup {<<st, "one", Plain>> : st \in {404, 403, 410, 414, 500, 204}}
 Init == /\ c \in MCCalls
         /\ pc = BeginPc(c) /\ pend = BeginPend(c) /\ log = << >>
 Next == \/ \E ok \in BOOLEAN : Wait(ok)
         \/ Get
-        \/ \E env \in MCEnv : Respond(env[1], Body(c.ep, env[2]))
+        \/ \E env \in MCEnv : Respond(env[1], Body(c.ep, env[2], env[3]))
         \/ Return
 Spec     == Init /\ [][Next]_vars
 FairSpec == Spec /\ WF_vars(Next)
@@ -396,7 +410,7 @@ ClassOf(ev) == IF ev.errtype = "" THEN "nil"
                ELSE IF ev.limerr THEN "limiter"
                ELSE IF ev.errtype \in DOMAIN GoTyped THEN GoTyped[ev.errtype]
                ELSE "other"
-CallOf(k) == [ep |-> k.ep, id |-> k.id, ver |-> k.ver, ids |-> k.ids, bbox |-> k.bbox, q |-> k.q,
+CallOf(k) == [ep |-> k.ep, id |-> k.id, ver |-> k.ver, ids |-> k.ids, bbox |-> k.bbox, q |-> k.q, ctx |-> k.ctx,
               opts |-> k.opts, base |-> k.base, lim |-> k.lim, via |-> k.via]
 \* recorded event -> event in the vocabulary of the Model / the Judges
 ObsEv(cc, ev) ==
